@@ -114,6 +114,7 @@ type caseInfo struct {
 	gt, rept  map[[2]int]bool
 	condKinds map[int]bool
 	shape     bool // a shape case (views of the same data)
+	helper    bool // the body runs in a callee hcaseN(x0, x2)
 }
 
 func collectKinds(b []cstmt, into map[int]bool) {
@@ -182,24 +183,26 @@ func (ci *caseInfo) classify(e df.GraphNode, call ssa.CallInstruction, class str
 	case "U":
 		ci.unexpl++
 	}
+	s, t := -1, siteOfCall(call, "sink")
 	if cn, ok := e.(*df.CallNode); ok {
-		s, t := siteOfCall(cn.CallSite(), "source"), siteOfCall(call, "sink")
-		if s < 0 && t >= 0 && class == "F5" {
-			if ci.indirectF5 == nil {
-				ci.indirectF5 = map[int]bool{}
-			}
-			ci.indirectF5[t] = true
+		s = siteOfCall(cn.CallSite(), "source")
+	}
+	if s < 0 && t >= 0 && class == "F5" {
+		// data that reached this node through another call / a parameter
+		if ci.indirectF5 == nil {
+			ci.indirectF5 = map[int]bool{}
 		}
-		if s >= 0 && t >= 0 {
-			if ci.edgeClass == nil {
-				ci.edgeClass = map[[2]int]string{}
-			}
-			k := [2]int{s, t}
-			// the worst class wins: U > F5 > M > J
-			rank := map[string]int{"": 0, "J": 1, "M": 2, "F5": 3, "U": 4}
-			if rank[class] > rank[ci.edgeClass[k]] {
-				ci.edgeClass[k] = class
-			}
+		ci.indirectF5[t] = true
+	}
+	if s >= 0 && t >= 0 {
+		if ci.edgeClass == nil {
+			ci.edgeClass = map[[2]int]string{}
+		}
+		k := [2]int{s, t}
+		// the worst class wins: U > F5 > M > J
+		rank := map[string]int{"": 0, "J": 1, "M": 2, "F5": 3, "U": 4}
+		if rank[class] > rank[ci.edgeClass[k]] {
+			ci.edgeClass[k] = class
 		}
 	}
 }
@@ -354,7 +357,8 @@ func runCases(rep *lib.Report) {
 			s2 = g.site()
 		}
 		body := g.body(2+r.Intn(maxNodes), false, 0)
-		src := renderCase(fmt.Sprintf("case%d", i), s0, s2, body)
+		helper := r.Intn(5) == 0
+		src := renderCase(fmt.Sprintf("case%d", i), s0, s2, body, helper)
 		ci := &caseInfo{id: i, src: src, sites: map[int]bool{}, gt: map[[2]int]bool{}, rept: map[[2]int]bool{}, condKinds: map[int]bool{}}
 		for k := before + 1; k <= site; k++ {
 			ci.sites[k] = true
@@ -362,6 +366,7 @@ func runCases(rep *lib.Report) {
 		collectKinds(body, ci.condKinds)
 		delete(ci.condKinds, cOpaque)
 		ci.nontriv = hasKind(body, kSink) && (len(ci.condKinds) > 0 || hasKind(body, kSanitize))
+		ci.helper = helper
 		cases = append(cases, ci)
 		text.WriteString("\n" + src)
 	}
@@ -470,6 +475,7 @@ func runProgram(rep *lib.Report, dir, pkg, text string, cases []*caseInfo, skelS
 	caseByName := map[string]*caseInfo{}
 	for _, ci := range cases {
 		caseByName[fmt.Sprintf("case%d", ci.id)] = ci
+		caseByName[fmt.Sprintf("hcase%d", ci.id)] = ci
 	}
 	rr := lib.Rand("c02-" + name + "-queries")
 	nSkel := 0
@@ -512,6 +518,9 @@ func runProgram(rep *lib.Report, dir, pkg, text string, cases []*caseInfo, skelS
 		}
 		if ci.shape {
 			rep.Count("case:shape")
+		}
+		if ci.helper {
+			rep.Count("case:body-in-callee")
 		}
 		if ci.dropped > 0 {
 			rep.Count("case:has-validator-dropped-edge")
